@@ -320,5 +320,41 @@ func apiSpecs() []*HarnessSpec {
 			{"n": {1, 2}, "L": {2}, "lens": rng(0, 8), "opt": optsDistinct, "part": {1, 2}, "lq": {1, 2}},
 			{"n": {3}, "L": {1}, "lens": rng(0, 7), "opt": {16, 9}, "part": {0, 1, 2}, "lq": {1}}},
 		Note: "NewSlimTrie writes to none of keys/values/opts (monitor + equality); Unmarshal neither writes nor retains the input buffer (monitor, heap reachability with the codec stub aliasing pessimistically, answers unchanged after the buffer is overwritten with symbolic bytes); Marshal output is unreachable from the trie and overwriting it changes nothing"})
+	// ---- C12 ----
+	out = append(out, &HarnessSpec{Name: "ix_exact", Pkg: "index", Property: "C12", Witness: 1,
+		Quick: []Grid{{"n": {0, 1}, "L": {2}, "lens": {0, 1, 2}, "mode": {0, 1}, "lq": {0, 1, 2, 3}},
+			{"n": {2}, "L": {2}, "lens": rng(0, 8), "mode": {0, 1}, "lq": {1, 3}},
+			{"n": {3}, "L": {1}, "lens": rng(0, 7), "mode": {0, 1}, "lq": {2}}},
+		Thorough: []Grid{{"n": {0, 1}, "L": {3}, "lens": {0, 1, 2, 3}, "mode": {0, 1}, "lq": {0, 1, 2, 3, 4}},
+			{"n": {2}, "L": {2}, "lens": rng(0, 8), "mode": {0, 1}, "lq": {0, 1, 2, 3, 4}},
+			{"n": {3}, "L": {2}, "lens": rng(0, 26), "mode": {0, 1}, "lq": {1, 2, 3}},
+			{"n": {4}, "L": {1}, "lens": rng(0, 15), "mode": {0, 1}, "lq": {2}}},
+		Note: "symbolic records (key, int64 offset): strictly increasing offsets with Get, non-decreasing block offsets (arbitrary block structure as models of the symbolic offsets) with RangeGet; a key-verifying reader; found exactly for indexed keys with the stored record, for an arbitrary symbolic query"})
+	// ---- C16 ----
+	out = append(out, &HarnessSpec{Name: "arr_map", Pkg: "array", Property: "C16", Witness: 1,
+		Quick: []Grid{{"type": rng(0, 5), "n": {1}, "words": rng(0, 5), "pw": rng(0, 5), "loaded": {0}},
+			{"type": {0, 1}, "n": {1}, "words": {0, 2, 5}, "pw": {0, 2, 5}, "loaded": {1}},
+			{"type": {0, 4}, "n": {2}, "words": {0, 6, 7, 12, 30, 35}, "pw": {0, 1, 5}, "loaded": {0}},
+			{"type": {1}, "n": {3}, "words": {0, 42, 43, 5*36 + 4*6 + 0}, "pw": {0, 1, 4}, "loaded": {0, 1}}},
+		Thorough: []Grid{{"type": rng(0, 5), "n": {1, 2}, "words": rng(0, 35), "pw": rng(0, 5), "loaded": {0}},
+			{"type": {0, 1}, "n": {1, 2}, "words": rng(0, 35), "pw": rng(0, 5), "loaded": {1}},
+			{"type": {1, 4}, "n": {3}, "words": rng(0, 215), "pw": rng(0, 5), "loaded": {0}}},
+		Note: "typed arrays U16..I64 from symbolic ascending indexes (enumerated 64-bit word, symbolic bit) and symbolic elements: typed Get, raw GetBytes and the generic Array agree with the oracle for a symbolic probe inside the bitmap span; round trip through the codec stub into the typed and the generic type"})
+	out = append(out, &HarnessSpec{Name: "arr_invalid", Pkg: "array", Property: "C16", Witness: 1,
+		Quick:    []Grid{{"n": {0, 1, 2, 3}, "words": {0, 1, 6, 7, 42}, "delta": {0}}, {"n": {0, 1, 2}, "words": {0, 7}, "delta": {-2, -1, 1, 2}}},
+		Thorough: []Grid{{"n": {0, 1, 2, 3}, "words": rng(0, 43), "delta": {0}}, {"n": {4}, "words": {0, 1, 7, 259, 1295}, "delta": {0}}, {"n": {0, 1, 2, 3}, "words": {0, 7}, "delta": {-3, -2, -1, 1, 2, 3}}},
+		Note:     "without the ascending assumption: rejected with ErrIndexNotAscending exactly when some neighbours are not strictly ascending; lengths differing by -2..2 give ErrIndexLen; in both cases nothing is built"})
+	// ---- C17 ----
+	out = append(out, &HarnessSpec{Name: "l2_size_rel", Pkg: "trie", Property: "C17", Witness: 2,
+		Quick: []Grid{{"n": {1}, "L": {2}, "lens": {0, 1, 2}, "plen": {64, 4096}},
+			{"n": {2}, "L": {2}, "lens": rng(0, 8), "plen": {64, 4096}},
+			{"n": {3}, "L": {1}, "lens": rng(0, 7), "plen": {64}}},
+		Thorough: []Grid{{"n": {1, 2}, "L": {2}, "lens": rng(0, 8), "plen": {1, 64, 4096, 16000}},
+			{"n": {3}, "L": {2}, "lens": rng(0, 26), "plen": {64, 4096}}},
+		Note: "relational clause: symbolic K and P+K (concrete prefix of 64/4096 bytes), default options, nil values: a structural upper-bound size measure differs by <= 24; the real serialized sizes differ by <= 16 on the native replays"})
+	out = append(out, &HarnessSpec{Name: "l3_size_abs", Pkg: "trie", Property: "C17", Witness: 1,
+		Quick:    []Grid{{"family": {0, 1, 2, 3}, "n": {64}}},
+		Thorough: []Grid{{"family": {0, 1, 2, 3}, "n": {16, 64, 256}}},
+		Note:     "adversarial concrete families (caterpillar, long steps, fan-out 11 byte nodes, many distinct bitmaps) with a symbolic tail: upper-bound measure <= 8n+256; real size checked on the native replays"})
 	return out
 }
